@@ -293,7 +293,22 @@ def s7(ctx, rep):
             f"{rv}.difference_update(...) between processing results and scheduling",
             "new tasks can be scheduled before the trials that just finished/paused are removed from the running set: a trial "
             "paused in this iteration and resumed immediately is afterwards removed from the running set although it runs")
-    # and the argument of difference_update is what _process_new_results returned
+    # and what is subtracted is what _process_new_results returned in THIS iteration - not the accumulated record of all
+    # trials that were ever done (a trial that was paused earlier and has been resumed is running again)
+    from ..engine import var_from_call, deref
+    nd = var_from_call(f, "_process_new_results", 0)
+    if nd is None:
+        raise AnchorError("Tuner.run: result of _process_new_results is not unpacked into (finished trials, new results)")
+    for n_ in sorted(upd):
+        for x in cfg.node_walk(n_):
+            if isinstance(x, ast.Call) and fn_name(x) == "difference_update" and U(x.func.value) == rv and x.args:
+                a = deref(f, x.args[0])
+                names = {y.id for y in ast.walk(a) if isinstance(y, ast.Name)}
+                ok = names == {nd}
+                rep.put(ok, "S7", "taint", "Tuner.run: the running set is reduced by exactly the trials _process_new_results reported as finished", f, x,
+                        U(x), f"`{U(x)}` subtracts {sorted(names - {nd}) or '(nothing of this iteration)'} instead of this iteration's finished trials "
+                        f"`{nd}`: a trial that was paused once and has been resumed is removed from the running set again - it is never polled "
+                        "and its worker is given to another trial (more than n_workers occupy workers)")
     return
 
 
